@@ -18,7 +18,7 @@ LEVEL = {
             'design_ref': '5 C01, 9a',
             'note': _TB + 'Clock domain D (differences fit int32). filebuffer modelled as identity on the slot view (byte level: C05/C06).'},
     'C02': {'text': 'Theorem for every float-operation record: propagate/chain refine the log-level specification (known values in time order, '
-                    'threshold, never from empty, continue only if stored, frame), total for the six methods. For the execution instance (Flocq binary32) the known-fraction test is round32(k/n) < xFilesFactor over the reals and never rejects a fraction that is at least xFilesFactor (C02_known_fraction_test_meaning, C02_fraction_at_least_xff_is_stored; these two theorems depend on the standard real-number axioms sig_not_dec, sig_forall_dec, functional_extensionality_dep, classic).',
+                    'threshold, never from empty, continue only if stored, frame on both sides: finer logs untouched, and in the coarser log only intervals that cover a written point are recomputed - C02_only_intervals_of_written_points_are_recomputed), total for the six methods. For the execution instance (Flocq binary32) the known-fraction test is round32(k/n) < xFilesFactor over the reals and never rejects a fraction that is at least xFilesFactor (C02_known_fraction_test_meaning, C02_fraction_at_least_xff_is_stored; these two theorems depend on the standard real-number axioms sig_not_dec, sig_forall_dec, functional_extensionality_dep, classic).',
             'design_ref': '5 C02, 9a',
             'note': _TB + 'The float32 known-fraction test is an abstract operation in the theorems and Flocq binary32 in the runs.'},
     'C03': {'text': 'Theorems: extractPoints on a sorted batch is the age filter; the batch loop refines per-archive age bands over the stably sorted batch; '
